@@ -83,8 +83,10 @@ package gortsplib
 //@   opt inline=0
 //@   modifies *
 
+// Exactly one response is written for a request, whatever the handlers return (C02).
 //@ func (sc *ServerConn) handleRequestOuter
 //@   opt inline=0
+//@   ensures[C02] calls(WriteResponse) == 1
 //@   modifies *
 
 // --- C18: nothing larger than MaxPacketSize is handed to a transport -----------------------
